@@ -63,6 +63,7 @@ PROP = {  # keyword in subject -> (property, what failed)
  "collateral of any era is key-locked": ("C38", "babbage/conway: script-locked collateral created in a previous era accepted (check skipped)"),
  "Byron-era collateral entry": ("C38", "alonzo: Byron-era collateral entry of 1 lovelace accepted (amount check skipped)"),
  "repeated collateral input": ("C38", "babbage/conway: collateral [c, c] counted twice in the collateral balance"),
+ "applies AwaitReply when it waits in CanAwait": ("C23", "send_request_next; request_or_await_next (or recv_while_must_reply) with AwaitReply injected returned Err(InvalidInbound), consumed the message and stayed in CanAwait"),
  "CostModels encodes": ("C06", "conway CostModels{unknown:{3:[1]}} encoded as a0 and decoded with unknown:{}"),
 }
 log = subprocess.run(["git","-C","/repo","log","--format=%h\t%s","--grep=^fix:"],capture_output=True,text=True).stdout.strip().splitlines()
